@@ -795,7 +795,7 @@ func run(c *lib.Ctx) {
 		c.Count("cases_base_"+cs.Backend, 1)
 		nt := st.flags["rollback_discarded_shadowing_write"] && st.flags["commit_merged_tombstone_over_live"] && st.flags["read_then_write"] && st.flags["delete_of_base_entry"]
 		var sample any
-		if i < 2 {
+		if i < 2 || (nt && i < 400) {
 			sample = witness(cs)
 		}
 		c.Case(lib.Fingerprint(cs), nt, sample)
